@@ -97,6 +97,9 @@ class Canon:
         self.m, self.scope, self.inline = module, scope or Scope(None), inline
         self.bound = bound or {}
         self._stack: list[str] = []
+        self._arity: dict = {}
+
+    _cdepth = 0
 
     def t(self, e: ast.AST):
         k = self._t(e)
@@ -129,6 +132,11 @@ class Canon:
                         self._stack.pop()
             if e.id in self.scope.defs:
                 return ('name', e.id)
+            # a module-level name bound once to a string / number constant is that constant
+            if self.inline:
+                vals = self.m.assigns.get(e.id) or []
+                if len(vals) == 1 and isinstance(vals[0], ast.Constant) and isinstance(vals[0].value, (str, int, float)) and not isinstance(vals[0].value, bool) and not self.m.rebinds_global(e.id):
+                    return self._t(vals[0])
             dotted = self.m.dotted(e)
             if dotted and dotted != e.id:
                 return ('lib', dotted)
@@ -180,7 +188,11 @@ class Canon:
         if isinstance(e, ast.Slice):
             return ('slice', self._t(e.lower) if e.lower else ('none',), self._t(e.upper) if e.upper else ('none',), self._t(e.step) if e.step else ('none',))
         if isinstance(e, ast.Tuple):
-            return ('tuple',) + tuple(self._t(x) for x in e.elts)
+            els = tuple(self._t(x) for x in e.elts)
+            # (a, b, c) rebuilt from `for a, b, c in ...` is the element itself
+            if els and all(x[0] == 'sub' and x[1][0] == 'cvar' and x[2] == ('num', j) for j, x in enumerate(els)) and len({x[1] for x in els}) == 1 and self._arity.get(els[0][1]) == len(els):
+                return els[0][1]
+            return ('tuple',) + els
         if isinstance(e, ast.List):
             return ('list',) + tuple(self._t(x) for x in e.elts)
         if isinstance(e, ast.Set):
@@ -201,21 +213,33 @@ class Canon:
             names = [a.arg for a in e.args.args]
             sub = Canon(self.m, self.scope, self.inline, {**self.bound, **{n: ('param', i) for i, n in enumerate(names)}})
             return ('lambda', len(names), sub._t(e.body))
-        if isinstance(e, (ast.ListComp, ast.SetComp, ast.GeneratorExp)):
-            kind = {ast.ListComp: 'listcomp', ast.SetComp: 'setcomp', ast.GeneratorExp: 'genexp'}[type(e)]
+        if isinstance(e, (ast.ListComp, ast.SetComp, ast.GeneratorExp, ast.DictComp)):
+            kind = {ast.ListComp: 'listcomp', ast.SetComp: 'setcomp', ast.GeneratorExp: 'genexp', ast.DictComp: 'dictcomp'}[type(e)]
             bound = dict(self.bound)
             gens = []
             for gi, g in enumerate(e.generators):
                 sub = Canon(self.m, self.scope, self.inline, bound)
+                sub._stack = self._stack
                 it = sub._t(g.iter)
-                for j, nm in enumerate(_target_names(g.target)):
-                    bound[nm] = ('cvar', gi, j)
+                cv = ('cvar', self._cdepth + gi, 0)
+                if isinstance(g.target, ast.Name):
+                    bound[g.target.id] = cv
+                elif isinstance(g.target, (ast.Tuple, ast.List)) and all(isinstance(x, ast.Name) for x in g.target.elts):
+                    # unpacking succeeded, so every element has exactly these positions: a name is the element's position
+                    for j, x in enumerate(g.target.elts):
+                        bound[x.id] = ('sub', cv, ('num', j))
+                    self._arity[cv] = len(g.target.elts)
+                else:
+                    for j, nm in enumerate(_target_names(g.target)):
+                        bound[nm] = ('cvar', self._cdepth + gi, 1 + j)
                 sub = Canon(self.m, self.scope, self.inline, bound)
+                sub._stack, sub._cdepth, sub._arity = self._stack, self._cdepth + gi + 1, self._arity
                 gens.append((it, tuple(sub._t(c) for c in g.ifs)))
             sub = Canon(self.m, self.scope, self.inline, bound)
+            sub._stack, sub._cdepth, sub._arity = self._stack, self._cdepth + len(e.generators), self._arity
+            if isinstance(e, ast.DictComp):
+                return (kind, ('pair', sub._t(e.key), sub._t(e.value)), tuple(gens))
             return (kind, sub._t(e.elt), tuple(gens))
-        if isinstance(e, ast.DictComp):
-            return ('dictcomp', ast.dump(e))
         if isinstance(e, ast.Starred):
             return ('star', self._t(e.value))
         if isinstance(e, ast.NamedExpr):
@@ -241,6 +265,12 @@ class Canon:
         if dotted in ('numpy.abs', 'numpy.absolute', 'numpy.fabs') or (ft == ('name', 'abs')):
             if len(args) == 1:
                 return ('call', ('lib', 'abs'), (args[0],), kws)
+        if ft in (('name', 'list'), ('lib', 'list')) and len(args) == 1 and not kws and args[0][0] in ('genexp', 'listcomp'):
+            return ('listcomp',) + args[0][1:]
+        if dotted == 'itertools.chain.from_iterable' and len(args) == 1 and not kws and args[0][0] in ('genexp', 'listcomp') and args[0][1][0] == 'tuple':
+            # flat-map: every element of the inner tuples, in order
+            inner = args[0]
+            return ('genexp', ('cvar', self._cdepth + len(inner[2]), 0), inner[2] + ((inner[1], ()),))
         if dotted == 'numpy.flatnonzero' and len(args) == 1 and not kws:
             return ('sub', ('call', ('lib', 'numpy.nonzero'), (args[0],), ()), ('num', 0))
         if dotted == 'numpy.where' and len(args) == 1 and not kws:
@@ -450,3 +480,30 @@ def walk_term(term):
         for x in term:
             if isinstance(x, tuple):
                 yield from walk_term(x)
+
+
+def unify(pattern, term, binds: dict | None = None):
+    """Match `term` against `pattern`; ('?', name) in the pattern binds any sub-term (the same name must bind equal terms).
+    Returns the bindings or None."""
+    binds = {} if binds is None else binds
+    if isinstance(pattern, tuple) and len(pattern) == 2 and pattern[0] == '?':
+        if pattern[1] in binds:
+            return binds if binds[pattern[1]] == term else None
+        binds[pattern[1]] = term
+        return binds
+    if isinstance(pattern, tuple) and isinstance(term, tuple):
+        if len(pattern) != len(term):
+            return None
+        for p, t in zip(pattern, term):
+            if unify(p, t, binds) is None:
+                return None
+        return binds
+    return binds if pattern == term else None
+
+
+def pattern(module, src: str, holes=(), bound=None):
+    """canonical term of the expression `src` in which the names listed in `holes` are pattern variables"""
+    b = dict(bound or {})
+    for h in holes:
+        b[h] = ('?', h)
+    return Canon(module, Scope(None), inline=False, bound=b).t(ast.parse(src, mode='eval').body)
